@@ -253,7 +253,15 @@ def compare_array(kind, got_arr, n, nv, exp_rows, extra=()):
     if not bad:
         return None
     q = bad[0]
-    return {"why": "values", "cells_wrong": len(bad), "first_cell_flat": q,
+    wrong = got[bad]
+    with np.errstate(invalid="ignore"):
+        if wrong.dtype.kind in "fc" and bool(np.any(np.isnan(wrong))):
+            sig = "nan-leak"          # a NaN sentinel survived
+        elif bool(np.all(wrong == 0)):
+            sig = "zero-fill"         # cells never written
+        else:
+            sig = "wrong-value"
+    return {"why": "values", "sig": sig, "cells_wrong": len(bad), "first_cell_flat": q,
             "got": got[q].tolist(), "want": list(exp_rows[q]), "want_encoded": want[q].tolist(),
             "got_all": got.tolist() if got.size <= 64 else None}
 
